@@ -31,6 +31,10 @@ def _sname(v):
 
 def _hook_recorder():
     def fn(st, ev):
+        if ev[0] == "capture" and ev[1] in ("start", "stop"):
+            ce = st.ghost.get("cap_events", ())
+            if ev[1] not in ce:
+                st.ghost["cap_events"] = ce + (ev[1],)
         if ev[0] == "hook":
             name, failed = ev[1], ev[3]
             seq = st.ghost.get("hookseq", ())
@@ -89,6 +93,7 @@ def explore_step_run(ix, quiet, capture, with_scenario, hooks_may_raise_base=Fal
             "stepfunc": s.ghost.get("stepfunc"),
             "hookseq": hookseq,
             "cap": s.ghost.get("cap"), "cap_err": s.ghost.get("cap.err"),
+            "cap_events": list(s.ghost.get("cap_events", ())),
             "fmt": [s.ghost.get("fmt%d" % i, ()) for i in range(w.n_formatters)],
             "aborted": s.ghost.get("aborted") is True,
             "undefined_added": s.obj(s.obj(runner).fields["undefined_steps"]).count,
